@@ -263,10 +263,12 @@ fn mutate_in_place(rng: &mut Rng, v: &mut Value, heavy: bool) -> bool {
 					}
 				}
 				_ => {
-					if !o.contains_key("") {
+					if !o.entries().iter().any(|e| e.key.as_str().is_empty()) {
 						o.push("".into(), fresh);
 					} else {
-						*o.get_unique_mut("").ok().flatten().unwrap() = fresh;
+						if let Ok(Some(x)) = o.get_unique_mut("") {
+							*x = fresh;
+						}
 					}
 				}
 			}
@@ -345,7 +347,25 @@ pub fn record(args: &Args) {
 		if r.is_ok() && i % 3 == 1 {
 			let mut m = c.clone();
 			let changed = mutate_in_place(&mut rng, &mut m, heavy);
-			if changed {
+			let unique = |v: &Value| {
+				// by a scan of the entries (not through the key index, which is what is under test)
+				fn ok(v: &Value) -> bool {
+					match v {
+						Value::Array(a) => a.iter().all(ok),
+						Value::Object(o) => {
+							let es = o.entries();
+							(0..es.len()).all(|i| (0..i).all(|j| es[i].key != es[j].key)) && es.iter().all(|e| ok(&e.value))
+						}
+						_ => true,
+					}
+				}
+				ok(v)
+			};
+			if changed && !unique(&m) {
+				// replacing the value of a key that is present (or adding an absent one) produced a repeated key: after
+				// canonicalization the object did not answer key-based operations like a scan of its entries would
+				lines.push(json!({"ev": "mutfail", "v": project(&c), "after": project(&m)}));
+			} else if changed {
 				let before = m.clone();
 				let mut sps2 = vec![];
 				numbers_of(&before, &mut sps2);
